@@ -555,6 +555,7 @@ def live_callback_probe(run, focus, n=20):
     rng = run.rng
     saved_clock = mhsm.stdlib_datetime
     mhsm.stdlib_datetime = FakeClock("fine")
+    ties = []
     try:
         for _ in range(n):
             c = charts.gen_chart(rng, nmax=6, nsig=2)
@@ -567,12 +568,16 @@ def live_callback_probe(run, focus, n=20):
             state = {"n": 0}
             second = []         # lines handed to the sink the first one registers in its place (a log that rotates on a marker line)
 
+            sinks = []          # sink number of every line handed over, all steps, in order
+
             def other_sink(line):
                 handed.append(line)
                 second.append(line)
+                sinks.append(2)
 
             def on_line(line):
                 handed.append(line)
+                sinks.append(1)
                 state["n"] += 1
                 if state["n"] == react_at + 1:
                     if what == "post_fifo":
@@ -592,10 +597,12 @@ def live_callback_probe(run, focus, n=20):
             mine = lambda l: l in ("POST_FIFO:E9", "POST_LIFO:E9", "NOTE-FROM-CALLBACK")
             try:
                 steps = ["start"] + script
+                tie_steps = []      # per step: the sinks its lines went to
                 for sg in steps:
                     del handed[:]
                     del second[:]
                     state["n"] = 0
+                    mark = len(sinks)
                     if what == "re-register":
                         hsm.register_live_spy_callback(on_line)
                     if sg == "start":
@@ -605,6 +612,8 @@ def live_callback_probe(run, focus, n=20):
                         hsm.next_rtc()
                     want = [l for l in hsm.spy_rtc() if not mine(l)]
                     got = [l for l in handed if not mine(l)]
+                    if what == "re-register" and sg != "start":
+                        tie_steps.append(sinks[mark:])
                     if got != want and bad is None:
                         bad = ("C21/live-spy/callback-logs", "the live-spy callback calls %s on the chart when it is shown line %d of a step: it was "
                                "handed %d of the step's %d lines (%s)" % (what, react_at + 1, len(got), len(want), "start_at" if sg == "start" else "E%d" % sg))
@@ -625,6 +634,24 @@ def live_callback_probe(run, focus, n=20):
             if bad and bad[0].startswith(focus):
                 run.violate(bad[0], bad[1], cj)
             run.case(cj, nontrivial=True)
+            if what == "re-register" and tie_steps and not (bad and "escaped" in bad[1]):
+                # the Lean model Instr.HandOver: sink 1 is registered before every step and registers sink 2 when shown line react_at + 1
+                rules, ops, nid, expect = [], [], 0, []
+                for got_sinks in tie_steps:
+                    ids = list(range(nid, nid + len(got_sinks)))
+                    nid += len(got_sinks)
+                    if len(ids) > react_at:
+                        rules += [1, ids[react_at], 2]
+                    ops += [1, 1, 0, len(ids)] + ids
+                    expect += ["%d:%d" % (k, i) for k, i in zip(got_sinks, ids)]
+                ties.append(("handover 9 1 %d %s %d %s" % (len(rules) // 3, " ".join(map(str, rules)), 2 * len(tie_steps), " ".join(map(str, ops))),
+                             "handed=%s" % (",".join(expect) or "-"), cj))
+        if ties:
+            outs = leanrun.run_driver([t[0] for t in ties])
+            for (ln, want_handed, cj), mo in zip(ties, outs):
+                run.traces_validated += 1
+                if mo.split(" ")[0] != want_handed:
+                    run.disagree("live-spy hand-over with a callback that registers another one", cj, mo, want_handed)
     finally:
         mhsm.stdlib_datetime = saved_clock
 
